@@ -47,6 +47,8 @@ type Sx struct {
 	// Unknown: library calls without a model whose result was made opaque.
 	Unknown []string
 	Assumed []string // data-dependent branches followed away from an error exit
+	// ModGlobals: package-level variables of the module the evaluation touched.
+	ModGlobals []string
 	// Trace: selected library calls in execution order, each with the assumptions
 	// in force when it ran (rules check that a guard precedes a call).
 	Trace []string
@@ -1672,6 +1674,9 @@ func sxIsNil(v sxVal) (bool, bool) {
 func (sx *Sx) global(g *ssa.Global) *sxNode {
 	if n := sx.globals[g]; n != nil {
 		return n
+	}
+	if g.Pkg != nil && strings.HasPrefix(g.Pkg.Pkg.Path(), sx.E.P.ModPath) {
+		sx.ModGlobals = append(sx.ModGlobals, g.Name())
 	}
 	et := g.Type().(*types.Pointer).Elem()
 	n := &sxNode{T: et, Leaf: sxOpaque{"package-level variable " + g.Name()}, ro: true}
